@@ -62,6 +62,7 @@ type world struct {
 	done      chan doneEv
 	cleanup   chan struct{}
 	wedged    atomic.Bool // an operation did not return: the server is hung, nothing else can be trusted
+	storm     atomic.Bool // widen the window in which config.SaveConfig collects the option locks
 	offModule *modules.Module
 	db        *database.Interface
 	tcp       *httptest.Server
@@ -219,6 +220,11 @@ func setup() {
 		die("SetAuthenticator: %v", err)
 	}
 	api.VerifSetSink(w.sink)
+	config.VerifSetSink(func(point string, args ...any) {
+		if point == "yield:SaveConfig:option-lock" && w.storm.Load() {
+			time.Sleep(400 * time.Microsecond)
+		}
+	})
 	modules.EnableModuleManagement(nil)
 	on := modules.Register("c12on", nil, nil, nil, "api", "rng")
 	on.Enable()
@@ -255,21 +261,15 @@ func setup() {
 	w.db = database.NewInterface(&database.Options{Local: true, Internal: true})
 	w.tcp = httptest.NewServer(w.handler)
 
-	// synchronise with the config-change machinery: stray start-up imports are consumed here
-	for _, probe := range [][]string{{"c12-sync"}, {}} {
-		if err := config.SetConfigOption(api.CfgAPIKeys, probe); err != nil {
-			die("config: %v", err)
-		}
-		deadline := time.Now().Add(waitTimeout)
-		for {
-			ev, ok := w.waitDone()
-			if !ok || time.Now().After(deadline) {
-				die("config change events do not reach updateAPIKeys")
-			}
-			if ev.n == len(probe) {
-				break
-			}
-		}
+	// synchronise with the config-change machinery: let stray start-up imports finish, then see
+	// that a config change reaches updateAPIKeys at all
+	time.Sleep(300 * time.Millisecond)
+	w.drain()
+	if err := config.SetConfigOption(api.CfgAPIKeys, []string{}); err != nil {
+		die("config: %v", err)
+	}
+	if _, ok := w.waitDone(); !ok {
+		die("config change events do not reach updateAPIKeys")
 	}
 	time.Sleep(100 * time.Millisecond)
 	w.drain()
@@ -297,6 +297,7 @@ type exec struct {
 func newExec(r *hxlib.Run) hxlib.Exec {
 	worldOnce.Do(setup)
 	w := theWorld
+	w.storm.Store(false)
 	e := &exec{r: r, w: w, byString: map[string]keyTmpl{}}
 	// fresh state
 	api.VerifResetSessions()
@@ -503,6 +504,12 @@ func (e *exec) Do(line string) string {
 		}
 		e.w.cfgDev = f[1] == "1"
 		return e.otherChange(config.CfgDevModeKey, e.w.cfgDev)
+	case "storm":
+		if len(f) != 2 || (f[1] != "0" && f[1] != "1") {
+			return "bad-op"
+		}
+		e.w.storm.Store(f[1] == "1")
+		return "ok"
 	case "authset":
 		if len(f) != 2 || (f[1] != "0" && f[1] != "1") {
 			return "bad-op"
